@@ -51,9 +51,29 @@ cmp("parse_emc_digi_id.theta", r["theta"], t, [p, t, f]); cmp("parse_emc_digi_id
 ra = p3.parse_emc_digi_id(ak.Array(ids)); cmp("parse_emc_digi_id(ak).gid", ak.to_numpy(ra["gid"]), ge, [p, t, f])
 r = p3.parse_emc_gid(ge, with_pos=False)
 cmp("parse_emc_gid.gid", r["gid"], ge, [ge]); cmp("parse_emc_gid.part", r["part"], p, [ge]); cmp("parse_emc_gid.theta", r["theta"], t, [ge]); cmp("parse_emc_gid.phi", r["phi"], f, [ge])
+# the documented parameter names: a call that names its inputs may be refused (numba ufuncs take no keyword inputs), but whenever it
+# returns, it is the value for the NAMED wire / crystal, whatever the order in which the names are written
+import inspect, itertools
+refused = 0
+for fname, names, cols, want in (("get_mdc_gid", ("layer", "wire"), (l, w), g), ("get_emc_gid", ("part", "theta", "phi"), (p, t, f), ge)):
+    fn = getattr(p3, fname)
+    for npos in range(len(names)):
+        for perm in itertools.permutations(range(npos, len(names))):
+            kw = {names[k]: cols[k] for k in perm}
+            try:
+                got = fn(*cols[:npos], **kw)
+            except TypeError:
+                refused += 1; continue
+            cmp(f"{fname}({', '.join(names[:npos])}{', ' if npos else ''}{', '.join(names[k] + '=' for k in perm)})", got, want, list(cols))
+for fname, kwname, col, want in (("mdc_gid_to_layer", "gid", g, l), ("mdc_gid_to_wire", "gid", g, w), ("emc_gid_to_part", "gid", ge, p), ("emc_gid_to_theta", "gid", ge, t), ("emc_gid_to_phi", "gid", ge, f)):
+    try:
+        got = getattr(p3, fname)(**{kwname: col})
+    except TypeError:
+        refused += 1; continue
+    cmp(f"{fname}({kwname}=)", got, want, [col])
 # sampled kernel evaluations for comparison with the model evaluated inside Coq
 out = []
 for c in inp["sample"]:
     fn = getattr(p3, c["f"])
     out.append(int(fn(*[np.int64(a) for a in c["args"]])))
-print(json.dumps({"evaluations": n_eval, "mismatches": mis, "sample": out}))
+print(json.dumps({"evaluations": n_eval, "mismatches": mis, "sample": out, "keyword_calls_refused": refused}))
